@@ -28,7 +28,7 @@ META = {
                           'judged_order_session_recheck', 'ties_broken_by_position'],
     'shards': {'quick': 16, 'thorough': 16},
     'exhaustive': {'quick': 'all 682 boolean tables <= 3x3',
-                   'thorough': 'all boolean tables <= 3x3, 3x4, 4x3'},
+                   'thorough': 'all boolean tables <= 3x3, 3x4, 4x3, 4x4'},
     'assumptions': ['member extents are read through Concept.extent and mapped to positions by the shadow'],
 }
 
